@@ -16,15 +16,10 @@
    Trees are in n-ary normal form: <<"leaf", <<i>>>> (i = number of the operand in reading order) or <<op, <<children>>>>,
    where a run of one operator is ONE node - "the grouping inside a run of one and the same operator is unspecified" -
    while a bracketed operand is always a node of its own. *)
-EXTENDS Integers, Sequences, FiniteSets, TLC
+EXTENDS CondLang
 
 CONSTANTS MaxTok
 
-Toks == {"a", "(", ")", "U", "X", "O"}
-OpOf(tok) == CASE tok = "U" -> "and" [] tok = "X" -> "xor" [] tok = "O" -> "or"
-Prec(o) == CASE o = "or" -> 1 [] o = "xor" -> 2 [] o = "and" -> 3 [] o = "then" -> 4 [] o = "(" -> 0
-Last(s)  == s[Len(s)]
-Front(s) == SubSeq(s, 1, Len(s) - 1)
 
 (* ------------------------------------------------------------------------------------------------ the machine *)
 VARIABLES consumed,   \* history: tokens fed so far (the replay input)
@@ -34,7 +29,6 @@ VARIABLES consumed,   \* history: tokens fed so far (the replay input)
           nops        \* number of operands read so far
 vars == <<consumed, ops, out, expect, nops>>
 
-Leaf(i) == <<"leaf", <<i>>>>
 \* combine the two topmost operands with operator o; an UNBRACKETED left operand of the same operator is extended
 Mk(o, l, r) == IF ~l[2] /\ l[1][1] = o THEN <<o, Append(l[1][2], r[1])>> ELSE <<o, <<l[1], r[1]>>>>
 Combine(o, s) == Append(SubSeq(s, 1, Len(s) - 2), <<Mk(o, s[Len(s) - 1], s[Len(s)]), FALSE>>)
@@ -79,57 +73,6 @@ Spec == Init /\ [][Next]_vars
 Accepting == expect = "operator" /\ \A i \in 1..Len(ops) : ops[i] # "("
 Result == Reduce(ops, out, 1)[2][1][1]              \* meaningful iff Accepting
 Enabled == {tok \in Toks : CanFeed(tok)}
-
-(* ------------------------------------------------------------------------------------------- documented reading *)
-IsOpTok(t) == t \in {"U", "X", "O"}
-RECURSIVE BalancedFrom(_, _, _)
-BalancedFrom(ts, i, d) == IF i > Len(ts) THEN d = 0
-                          ELSE IF ts[i] = "(" THEN BalancedFrom(ts, i + 1, d + 1)
-                          ELSE IF ts[i] = ")" THEN d > 0 /\ BalancedFrom(ts, i + 1, d - 1)
-                          ELSE BalancedFrom(ts, i + 1, d)
-\* C02: operands, balanced brackets, U/O/X with an operand on both sides, juxtaposition
-WellFormed(ts) ==
-  /\ ts # <<>>
-  /\ BalancedFrom(ts, 1, 0)
-  /\ ~IsOpTok(ts[1]) /\ ~IsOpTok(ts[Len(ts)])
-  /\ \A i \in 1..(Len(ts) - 1) :
-        /\ ~(IsOpTok(ts[i]) /\ IsOpTok(ts[i + 1]))            \* operator needs an operand on both sides
-        /\ ~(ts[i] = "(" /\ (IsOpTok(ts[i + 1]) \/ ts[i + 1] = ")"))   \* nothing empty, no operator right after "("
-        /\ ~(IsOpTok(ts[i]) /\ ts[i + 1] = ")")
-
-\* positions are pairs <<token, operand number>>
-RECURSIVE Number(_, _, _)
-Number(ts, i, n) == IF i > Len(ts) THEN <<>>
-                    ELSE IF ts[i] = "a" THEN <<<<"a", n + 1>>>> \o Number(ts, i + 1, n + 1)
-                    ELSE <<<<ts[i], 0>>>> \o Number(ts, i + 1, n)
-RECURSIVE Depths(_, _, _)     \* Depths(ps,i,d): sequence of bracket depths AT each position (depth of "(" = outer depth)
-Depths(ps, i, d) == IF i > Len(ps) THEN <<>>
-                    ELSE IF ps[i][1] = "(" THEN <<d>> \o Depths(ps, i + 1, d + 1)
-                    ELSE IF ps[i][1] = ")" THEN <<d - 1>> \o Depths(ps, i + 1, d - 1)
-                    ELSE <<d>> \o Depths(ps, i + 1, d)
-\* cut positions of operator o at depth 0 (for "then": boundaries between a complete operand and the start of the next)
-Cuts(ps, o) ==
-  LET ds == Depths(ps, 1, 0) IN
-  IF o = "then"
-  THEN {i \in 1..(Len(ps) - 1) : ds[i] = 0 /\ ds[i + 1] = 0 /\ ps[i][1] \in {"a", ")"} /\ ps[i + 1][1] \in {"a", "("}}
-  ELSE {i \in 1..Len(ps) : ds[i] = 0 /\ IsOpTok(ps[i][1]) /\ OpOf(ps[i][1]) = o}
-Enclosed(ps) == Len(ps) >= 2 /\ ps[1][1] = "(" /\ ps[Len(ps)][1] = ")"
-                /\ LET ds == Depths(ps, 1, 0) IN \A i \in 2..(Len(ps) - 1) : ds[i] >= 1
-RECURSIVE Pieces(_, _, _, _)  \* split ps at the sorted cut positions; for "then" the cut lies AFTER position c
-Pieces(ps, cuts, from, o) ==
-  IF cuts = {} THEN <<SubSeq(ps, from, Len(ps))>>
-  ELSE LET c == CHOOSE x \in cuts : \A y \in cuts : x <= y IN
-       IF o = "then" THEN <<SubSeq(ps, from, c)>> \o Pieces(ps, cuts \ {c}, c + 1, o)
-       ELSE <<SubSeq(ps, from, c - 1)>> \o Pieces(ps, cuts \ {c}, c + 1, o)
-RECURSIVE SplitP(_)
-SplitP(ps) ==
-  IF Len(ps) = 1 THEN Leaf(ps[1][2])
-  ELSE IF Enclosed(ps) THEN SplitP(SubSeq(ps, 2, Len(ps) - 1))
-  ELSE LET o == IF Cuts(ps, "or") # {} THEN "or" ELSE IF Cuts(ps, "xor") # {} THEN "xor"
-                ELSE IF Cuts(ps, "and") # {} THEN "and" ELSE "then"
-           pcs == Pieces(ps, Cuts(ps, o), 1, o)
-       IN <<o, [j \in 1..Len(pcs) |-> SplitP(pcs[j])]>>
-Split(ts) == SplitP(Number(ts, 1, 0))
 
 (* ------------------------------------------------------------------------------------------------- invariants *)
 \* C02 at token level: the machine accepts exactly the well-formed token sequences
